@@ -11,6 +11,7 @@ from typing import (
     Callable,
     Dict,
     Generic,
+    List,
     Mapping,
     Optional,
     Type,
@@ -182,17 +183,28 @@ class Runtime:
 
     def __enter__(self):
         with lock:
-            self.previous = _RUNTIMES.get(threading.current_thread())
-            _RUNTIMES[threading.current_thread()] = self
+            thread = threading.current_thread()
+            self.previous = _RUNTIMES.get(thread)
+            _PREVIOUS.setdefault(thread, []).append(self.previous)
+            _RUNTIMES[thread] = self
             return self
 
     def __exit__(self, exc_type, exc_value, traceback):
         with lock:
-            _RUNTIMES[threading.current_thread()] = self.previous
+            thread = threading.current_thread()
+            stack = _PREVIOUS[thread]
+            previous = stack.pop()
+            if not stack:
+                del _PREVIOUS[thread]
+            if previous is None:
+                _RUNTIMES.pop(thread, None)
+            else:
+                _RUNTIMES[thread] = previous
             self.previous = None
 
 
 _RUNTIMES: Dict[threading.Thread, Runtime] = {}
+_PREVIOUS: Dict[threading.Thread, List[Optional[Runtime]]] = {}
 
 
 def current_runtime() -> Runtime:
